@@ -1,4 +1,4 @@
-\* design check, intended model: every listed core invariant must hold
+\* behaviour generation, sparse topology: the relay chain B does not know the destination C (and C does not know B)
 CONSTANTS
   Chains = {"A","B","C"}
   Names = {"A","B","C","Z"}
@@ -8,27 +8,26 @@ CONSTANTS
   DecodableData = {"d2"}
   EmptyData = ""
   AckTags = {"mock","unauth","errX","ok"}
-  MaxSeq = 1
-  F_BIND = TRUE
+  MaxSeq = 3
+  F_BIND = FALSE
   F_ACKCB_SRC_ONLY = TRUE
   F_STATUS = TRUE
   F_RELAY_DST_ERRACK = TRUE
-  Links <- Links3
-  RuleSets <- RuleSetsSmall
+  Links <- LinksSparse
+  RuleSets <- RuleSetsGen
   Senders = {"A"}
-  Dests = {"C"}
-  UserRelays = {"","B"}
+  Dests = {"B","C"}
+  UserRelays = {"","B","C"}
   UserPorts = {"mock"}
-  UserData = {"d1"}
-  RuleChains = {"B"}
+  UserData = {"d1","d2"}
+  RuleChains = {"A","B","C"}
   AdvOn = TRUE
-  ExpirePairs <- ExpireCA
+  ExpirePairs <- NoPairs
   ExportOn = FALSE
-  LOG = FALSE
-  SimDepth = 0
+  LOG = TRUE
+  SimDepth = 40
   SimMode = "mixed"
 INIT Init
-NEXT Next
-INVARIANTS Inv_C14 Inv_C01 Inv_C02 Inv_C03 Inv_C09 Inv_C11 Inv_C13 Inv_C10
-PROPERTIES Prop_C10mono
+NEXT NextSim
+INVARIANT PrintBehaviour
 CHECK_DEADLOCK FALSE
